@@ -1,7 +1,6 @@
 import sys, time, importlib, os
 if not os.environ.get("DEDD_SHADOW"): sys.path.insert(0, "/verif")
 import os
-if os.environ.get("DEDD_PATCH"): import scratch.dedD_patch
 from pyvc.driver import run_tasks
 modname, fn = sys.argv[1], sys.argv[2]
 mod = importlib.import_module("contracts." + modname)
